@@ -4,6 +4,7 @@ import (
 	"fmt"
 	"go/ast"
 	"go/token"
+	"go/types"
 	"strings"
 
 	"verif/sa/core"
@@ -76,7 +77,7 @@ func ruleCC6() Rule {
 				return true
 			})
 			keyL := pop.Name + "|wait-loop"
-			if loop == nil || loop.Cond == nil || !strings.Contains(exprStr(loop.Cond), "atomic.LoadUint32") {
+			if loop == nil || loop.Cond == nil || !containsAtomicLoad(info, loop.Cond) {
 				rr.Bad(pop, keyL, pop.Pos(), "pop does not loop on the atomic announcement counter: it can wait for a push that will never come, or return nil while a push is due")
 			} else {
 				// the blocking receive must be inside the loop
@@ -117,7 +118,8 @@ func ruleCC6() Rule {
 						first = true
 					}
 				case *ast.CallExpr:
-					if calleeName(info, n) == "sync/atomic.AddUint32" && len(n.Args) == 2 && strings.Contains(exprStr(n.Args[1]), "^uint32(0)") {
+					if name := calleeName(info, n); len(n.Args) >= 1 && strings.Contains(exprStr(n.Args[len(n.Args)-1]), "^uint32(0)") &&
+						(name == "sync/atomic.AddUint32" && len(n.Args) == 2 || name == "sync/atomic.(*Uint32).Add" && len(n.Args) == 1) {
 						decs++
 					}
 				}
@@ -224,4 +226,20 @@ func onlyEqualsOf(e ast.Expr, names []string) bool {
 		}
 	}
 	return false
+}
+
+// containsAtomicLoad reports whether e contains a load through sync/atomic:
+// atomic.LoadXxx(&v) or the Load method of one of the package's typed values.
+func containsAtomicLoad(info *types.Info, e ast.Node) bool {
+	found := false
+	ast.Inspect(e, func(n ast.Node) bool {
+		if call, ok := n.(*ast.CallExpr); ok {
+			name := calleeName(info, call)
+			if strings.HasPrefix(name, "sync/atomic.Load") || (strings.HasPrefix(name, "sync/atomic.(*") && strings.HasSuffix(name, ").Load")) {
+				found = true
+			}
+		}
+		return !found
+	})
+	return found
 }
